@@ -22,6 +22,19 @@ class ChildExit(BaseException):
         self.code = code
 
 
+def _repo_stack():
+    """Names of the repository functions on the Python stack, innermost first."""
+    import sys
+    out = []
+    f = sys._getframe(2)
+    while f is not None and len(out) < 12:
+        fn = f.f_code.co_filename
+        if '/pysyncobj/' in fn:
+            out.append('%s:%s' % (fn.rsplit('/', 1)[-1][:-3], f.f_code.co_name))
+        f = f.f_back
+    return out
+
+
 class FS(object):
     def __init__(self, host):
         self.host = host
@@ -75,7 +88,7 @@ class FS(object):
                 torn(self.torn_frac)
                 self.image = self.snapshot()
                 fn()
-            self.killed_in = (self.ops, kind, path, mode)
+            self.killed_in = (self.ops, kind, path, mode, _repo_stack())
             if w is not None:
                 w.on_fs_kill(self.host)
             return
@@ -383,7 +396,7 @@ def install_seams(jr, sr, so):
             raise HarnessError('fork child pass returned without os._exit')
         pid = fe.next_pid
         fe.next_pid += 1
-        fe.children[pid] = dict(ops=ops, status=status)
+        fe.children[pid] = dict(ops=ops, status=status, t_start=w.T)
         fe.cur_pid = pid
         w.probe('fork_child_started')
         return orig(self, data, id)     # parent pass: stores the pid and returns
